@@ -57,7 +57,7 @@ def run(tier="quick", seed=0, use_cache=True):
         "must be the affine functions the leaf geometry dictates (moving to "
         "the next leaf adds len - offset, moving to the previous leaf "
         "subtracts offset + 1 and lands on len' - 1). SEEK-NET: the whole "
-        "function is executed symbolically (helpers inlined, out-parameters "
+        "function is interpreted abstractly path by path (polynomial values; helpers inlined, out-parameters "
         "followed, each loop unrolled 3 times, contradictory paths dropped by "
         "bounds on linear forms); with base(leaf) the index of a leaf's first "
         "item every successful return must have committed pseudoindex == i "
@@ -186,7 +186,7 @@ def run(tier="quick", seed=0, use_cache=True):
     res.count("RANGE-TABLE", 8 * len(out))
     res.count("SEEK-ALGEBRA", len(spec_seek) * len(out))
     res.count("SEEK-NET", sum(r["seeknet"]["n"] for r in out.values()))
-    res.floor("successful paths of BTreeItems_seek executed symbolically (OO)", out["OO"]["seeknet"]["n"], 10)
+    res.floor("successful paths of BTreeItems_seek interpreted (OO)", out["OO"]["seeknet"]["n"], 10)
     res.floor("kinds of moves seen by SEEK-NET (OO: within / next / prev)", len(out["OO"]["seeknet"]["kinds"]), 3)
     res.count("BOUND-NORM", sum(r["bn"] for r in out.values()))
     pt = rg.py_range_table()
